@@ -241,5 +241,6 @@ def run(chk):
         if n == 0:
             chk.broken.append(("no-cases", "%s %s produced no cases" % (ty, pal)))
         classify(chk, ty, pal, tight, fails)
-    chk.samples.append({"type": "Q", "op": "mul", "x": "(-1,2]", "y": "[-3,1)", "real": "(-6,3)", "note": "known finding C12-mul-straddle-flags"})
+    chk.samples.append({"type": "Q", "op": "mul", "x": "(-1,3]", "y": "[-3,1)", "real": "[-9,3)",
+                        "note": "branch 9, second candidate chosen with a different flag (wrong before ed6ee8d); corpus/C12/witnesses.json"})
     chk.extra["histogram"] = total_hist
